@@ -1,4 +1,4 @@
-import Chewing.Proofs.C01Selecting
+import Chewing.Proofs.C01Apply
 /-!
 # C01 — no call sequence, key or configuration can crash or hang the engine
 
@@ -29,19 +29,23 @@ and `conversion/mod.rs` is a value `Outcome.panic site`, every loop takes fuel a
 ## Coverage (`Covered`) — level: partial
 
 Covered: every key event (all key codes / modifiers / options) in the states `Entering`,
-`EnteringSyllable` and `Highlighting` including the keys that OPEN a candidate list (`PhraseSelector::init`
-terminates, selector invariant established), auto-commit, dictionary flush; and every other entry point
-in every state: `start_selecting`, `cancel_selecting`, `commit`, `clear`, `ack`,
+`EnteringSyllable` and `Highlighting`, including the keys that OPEN a candidate list (`PhraseSelector::init`
+terminates, selector invariant established), auto-commit, dictionary flush; every key under an open
+**phrase** or **special-symbol** candidate list (`Selecting::next`: paging, Down/Space with
+`PhraseSelector::next` — terminates, wraps at most once —, j/k with `retarget`, digits with
+`Selecting::select`: the chosen phrase is a valid selection, so the composition invariant survives);
+under an open **symbol table** every key whose arm does not read the table (all Ctrl / Shift combinations,
+Backspace, CapsLock, Up, Esc, Del, keys without a meaning there); and every other entry point in every
+state: `select(n)` (not on a symbol table), `start_selecting`, `cancel_selecting`, `commit`, `clear`, `ack`,
 `clear_syllable_editor`, `set_editor_options`, `set_syllable_editor`, `set_conversion_engine`,
-`learn_phrase`, `unlearn_phrase`; `select(n)` / `jump_*` outside a candidate list.
-Under an open candidate list also every key whose arm of `Selecting::next` does not consult the
-candidates: all Ctrl / Shift combinations, Backspace, CapsLock, Up, Esc, Del and every key without a meaning
-there (`selHardKey ev = false`).
-**Not yet covered by a theorem** (`C01_target` is the statement without `Covered`): **while a candidate
-list is open**, the keys Down, Space, j, k, Left, Right, PageUp, PageDown and the digits (`selHardKey`:
-`PhraseSelector::next`, `Selecting::select`, `SymbolSelector`, paging), and the API calls `select(n)` and
-`jump_to_*_selection_point`; these are covered by the correspondence (model = code per step, including
-which steps panic) and the crash campaigns only.
+`learn_phrase`, `unlearn_phrase`.
+**Not yet covered by a theorem** (`C01_target` is the statement without `Covered`):
+(1) `jump_to_{first,last,next,prev}_selection_point` while a candidate list is open;
+(2) while a **symbol table** (`SymbolSelector`: `` ` ``, Ctrl+0/1, or Down on a symbol without special
+variants) is open: `select(n)` and the keys Down, Space, j, k, Left, Right, PageUp, PageDown, digits — their
+panic sites (`symsel-table-index`, `symsel-empty-category-name`) need a well-formedness hypothesis on the
+loaded `symbols.dat`.  Both are covered by the correspondence (model = code per step, including which
+steps panic) and the crash campaigns only.
 
 The conversion engines enter through `EnvOK.convert_ok`, which is C03's `nonempty_result` + `alt_chain` +
 `one_char_per_symbol` + `fuel_suffices` (proved there for the engine model under `CompValid`, a word per
@@ -53,7 +57,7 @@ open Chewing Chewing.C04 Chewing.C05 Chewing.C06
 variable {D L : Type} {env : Env D L} {G : D → Prop}
 
 /-- **C01, one operation (partial).**  `hv`: arguments the C layer validates; `hk`: not the known class
-    F02/F03; `hc`: not one of the list-reading keys / `select` / `jump` under an open candidate list (not yet proved). -/
+    F02/F03; `hc`: not `jump_*` under an open list, not a table-reading key / `select` on an open symbol table. -/
 theorem C01_partial (hE : EnvOK env G) (e : Editor D L) (op : Op L) (hi : EditorInv env G e) (hv : OpValid op)
     (hk : ¬ Known env e op) (hc : Covered e op) :
     ∃ e', e.apply env op = .ok e' ∧ EditorInv env G e' :=
